@@ -305,6 +305,8 @@ REF_FAULTS = {
     'like-missing-cell': ('', ['5 like 9 but trcl=(20 0 0)'], '', [], []),
     'undefined-surface': ('-77', [], '', [], []),
     'undefined-cell-in-complement': ('#77', [], '', [], []),
+    'undefined-surface-in-moved-cell': ('-77 trcl=(1 0 0)', [], '', [], []),
+    'undefined-surface-in-filler': ('fill=1 (1 0 0)', ['11 0 -2 u=1 imp:n=1', '12 0 2 -77 u=1 imp:n=1'], '', [], []),
     'duplicate-cell-number': ('', ['1 0 2 -3 imp:n=1'], '', ['3 px 20'], []),
     'duplicate-surface-number': ('', [], '', ['1 so 6'], []),
     'duplicate-tr-number': ('', [], '8 ', [], ['tr8 1 0 0', 'tr8 2 0 0']),
